@@ -217,7 +217,9 @@ func assembleWith(z *core.VerifZone, txs ...*types.Transaction) (*types.WorkObje
 			return nil, fmt.Errorf("pool rejected a harness transaction: %v", err)
 		}
 	}
-	wo, err := z.Assemble(true)
+	// under hc.headermu, like Slice.GeneratePendingHeader: the worker's one-second ticker
+	// (asyncStateLoop) takes the same lock
+	wo, err := z.LockedAssemble(true)
 	if len(txs) > 0 {
 		z.Pool.RemoveQiTxs(qiHashes(txs...))
 	}
@@ -289,12 +291,19 @@ func buildScenario(p scnParams) (s *scenario, err error) {
 		if err != nil {
 			return nil, fmt.Errorf("assemble block %d: %v", i, err)
 		}
-		db.start()
-		err = z.Append(wo)
-		ops := db.stop()
+		// the logged window runs under hc.headermu (as in production), so the worker's ticker
+		// cannot interleave; the pre-image is taken inside the same critical section
+		var ops []topOp
+		z.Locked(func() {
+			pre = snapshot(db)
+			db.start()
+			err = z.Append(wo)
+			ops = db.stop()
+		})
 		if err != nil {
 			return nil, fmt.Errorf("append block %d: %v", i, err)
 		}
+		z.ResetPool()
 		cr, sp, err := s.effectsOf(ops, pre.flat())
 		if err != nil {
 			return nil, err
@@ -358,14 +367,18 @@ func buildScenario(p scnParams) (s *scenario, err error) {
 		s.RefFlat[200] = flat2
 		branch = append(branch, 200)
 	}
-	for _, id := range branch {
-		z.Store(s.Blocks[id].Wo) // what Slice.Append stores for a side-chain block
-	}
-	pre := snapshot(db)
 	tip := branch[len(branch)-1]
-	db.start()
-	err = z.Hc.SetCurrentHeader(s.Blocks[tip].Wo)
-	ops := db.stop()
+	var pre image
+	var ops []topOp
+	z.Locked(func() {
+		for _, id := range branch {
+			z.Store(s.Blocks[id].Wo) // what Slice.Append stores for a side-chain block
+		}
+		pre = snapshot(db)
+		db.start()
+		err = z.Hc.SetCurrentHeader(s.Blocks[tip].Wo)
+		ops = db.stop()
+	})
 	if err != nil {
 		return nil, fmt.Errorf("reorg: %v", err)
 	}
@@ -404,9 +417,12 @@ func buildSibling(pre image, alt *types.Transaction) (*types.WorkObject, []topOp
 	if err != nil {
 		return nil, nil, nil, err
 	}
-	db.start()
-	err = z.Append(wo)
-	ops := db.stop()
+	var ops []topOp
+	z.Locked(func() {
+		db.start()
+		err = z.Append(wo)
+		ops = db.stop()
+	})
 	if err != nil {
 		return nil, nil, nil, err
 	}
@@ -422,9 +438,10 @@ func extendBranch(pre image, first *types.WorkObject, tx *types.Transaction) (*t
 		return nil, nil, nil, err
 	}
 	defer z.Close()
-	if err := z.Append(first); err != nil {
+	if err := z.LockedAppend(first); err != nil {
 		return nil, nil, nil, err
 	}
+	z.ResetPool()
 	var txs []*types.Transaction
 	if tx != nil {
 		txs = append(txs, tx)
@@ -433,9 +450,12 @@ func extendBranch(pre image, first *types.WorkObject, tx *types.Transaction) (*t
 	if err != nil {
 		return nil, nil, nil, err
 	}
-	db.start()
-	err = z.Append(wo)
-	ops := db.stop()
+	var ops []topOp
+	z.Locked(func() {
+		db.start()
+		err = z.Append(wo)
+		ops = db.stop()
+	})
 	if err != nil {
 		return nil, nil, nil, err
 	}
